@@ -82,11 +82,17 @@ namespace rkcommon {
           if (!l->threadShouldBeAlive)
             return;
 
+          // Publish insideLoopBody *before* testing shouldBeRunning: stop()
+          // clears shouldBeRunning and then waits for insideLoopBody to be
+          // false, so each side has to write its own flag before it reads the
+          // other's. Testing first would let stop() return in between and the
+          // body start afterwards.
+          l->insideLoopBody = true;
           if (l->shouldBeRunning) {
-            l->insideLoopBody = true;
             fcn();
             l->insideLoopBody = false;
           } else {
+            l->insideLoopBody = false;
             std::unique_lock<std::mutex> lock(l->runningMutex);
             l->runningCond.wait(lock, [&] {
               return l->shouldBeRunning.load() ||
